@@ -81,6 +81,8 @@ mutual
 /-- the Go target types `parseField` distinguishes -/
 inductive ATy
   | bool | int32 | int64 | bigInt | enum | bitString | octets | oid | str | rawValue | flag | time
+  /-- `interface{}` -/
+  | any
   /-- `rawContent`: the first field has type `asn1.RawContent` (it is not listed in `fs`) -/
   | struct (rawContent : Bool) (fs : AFields)
   /-- `setName`: the slice type's name ends in "SET" -/
@@ -105,6 +107,8 @@ inductive AVal
   | raw (cls tag : Nat) (compound : Bool) (content full : Bytes)
   | flag (b : Bool)
   | time (t : TimeVal)
+  /-- an `interface{}`: nil or the decoded element -/
+  | any (v : Option AVal)
   | struct (raw : Option Bytes) (fs : List AVal)
   | list (vs : List AVal)
   | absent (v : AVal)
@@ -126,6 +130,7 @@ def universalType : ATy → Bool × Nat × Bool
   | .seqOf s _ => (false, if s then tagSet else tagSequence, true)
   | .str => (false, tagPrintableString, false)
   | .time => (false, tagUTCTime, false)
+  | .any => (false, 0, false)
 
 /-- `canHaveDefaultValue(v.Kind())` -/
 def ATy.intKind : ATy → Bool
@@ -145,6 +150,7 @@ def zeroVal : ATy → AVal
   | .rawValue => .raw 0 0 false [] []
   | .flag => .flag false
   | .time => .time ⟨1, 1, 1, 0, 0, 0, 0, 0⟩
+  | .any => .any none
   | .struct _ fs => .struct none (zeroVals fs)
   | .seqOf _ _ => .list []
 def zeroVals : AFields → List AVal
@@ -167,6 +173,7 @@ def isZero : AVal → Bool
   | .str _ s => s.isEmpty
   | .flag b => !b
   | .time t => t == ⟨1, 1, 1, 0, 0, 0, 0, 0⟩
+  | .any none => true
   | .struct raw fs => (raw.getD []).isEmpty && allZero fs
   | _ => false
 where allZero : List AVal → Bool
@@ -194,10 +201,11 @@ def emptySlice : AVal → Bool
 
 /-- marshal.go `makeField`: the three tests that make a field vanish from the encoding -/
 def omitted (t : ATy) (p : FP) (v : AVal) : Bool :=
-  (emptySlice v && p.omitEmpty) ||
+  (match t with | .any => false | _ => true) &&
+  ((emptySlice v && p.omitEmpty) ||
   (p.optional && (match p.dflt with
     | some d => t.intKind && (match v.unwrap with | .int i => i == d | _ => false)
-    | none => isZeroAt t v))
+    | none => isZeroAt t v)))
 
 /-- the tag `makeField` picks for a Go string -/
 def marshalStringTag (p : FP) (s : Bytes) : Nat :=
@@ -355,6 +363,36 @@ def canonOuter (tl : TL) (r2len : Nat) : Option (Nat × Nat) → Bool
   | none => true
   | some (olen, r1len) => olen == (r1len - r2len) + tl.len
 
+/-- the tag switch of the `interface{}` branch of `parseField` -/
+def anyInner (d : Dialect) (lax : Bool) (tl : TL) (inner : Bytes) : Except Err (Option AVal) :=
+  if !tl.compound && tl.cls == 0 then
+    if tl.tag = tagPrintableString then (parsePrintableString lax inner).map fun s => some (.str tl.tag s)
+    else if tl.tag = tagNumericString then (parseNumericString inner).map fun s => some (.str tl.tag s)
+    else if tl.tag = tagIA5String then (parseIA5String inner).map fun s => some (.str tl.tag s)
+    else if tl.tag = tagT61String then .ok (some (.str tl.tag inner))
+    else if tl.tag = tagUTF8String then (parseUTF8String inner).map fun s => some (.str tl.tag s)
+    else if tl.tag = tagInteger then (parseInt64 lax inner).map fun i => some (.int i)
+    else if tl.tag = tagBitString then (parseBitString inner).map fun b => some (.bits b)
+    else if tl.tag = tagOID then (parseOID d lax inner).map fun a => some (.oid a)
+    else if tl.tag = tagUTCTime then (parseUTCTime inner).map fun t => some (.time t)
+    else if tl.tag = tagGeneralizedTime then (parseGeneralizedTime d inner).map fun t => some (.time t)
+    else if tl.tag = tagOctetString then .ok (some (.octets inner))
+    else if tl.tag = tagBMPString then (parseBMPString inner).map fun s => some (.str tl.tag s)
+    else if tl.tag = tagBoolean ∧ d.anyBool then (parseBool inner).map fun b => some (.bool b)
+    else .ok none
+  else .ok none
+
+/-- the `interface{}` branch of `parseField` (`bs ≠ []`) -/
+def parseAny (d : Dialect) (lax : Bool) (bs : Bytes) : Except Err (AVal × Bytes) :=
+  match parseTagLen d bs with
+  | .error e => .error e
+  | .ok (tl, r) =>
+    if tl.len > r.length then .error .syntax
+    else
+      match anyInner d lax tl (r.take tl.len) with
+      | .error e => .error e
+      | .ok v => .ok (.any v, r.drop tl.len)
+
 /-- everything of `parseField` around the type-specific decoding `k` -/
 def fieldShell (d : Dialect) (m : Mode) (t : ATy) (p : FP) (bs : Bytes)
     (k : TL → Nat → Bytes → Bytes → Except Err AVal) : Except Err (AVal × Bytes) :=
@@ -362,6 +400,8 @@ def fieldShell (d : Dialect) (m : Mode) (t : ATy) (p : FP) (bs : Bytes)
     if m.isCanon && !omitted t p (.absent (defaultVal t p)) then .error .other
     else .ok (.absent (defaultVal t p), rest)
   if bs = [] then (if p.optional then absent [] else .error .syntax)
+  else if (match t with | .any => true | _ => false) then
+    (if m.isCanon then .error .other else parseAny d m.isLax bs)
   else
     match header (d.forMode m) t p bs with
     | .error e => .error e
@@ -388,6 +428,7 @@ def parseField (d : Dialect) (m : Mode) : ATy → FP → Bytes → Except Err (A
   | .seqOf s e, p, bs =>
     fieldShell d m (.seqOf s e) p bs fun _ _ inner _ =>
       if m.isCanon && d.sortSetOf && (p.set || s) then .error .other
+      else if (match e with | .any => true | _ => false) then .error .structural
       else
       match countElems (d.forMode m) (universalType e) (inner.length + 1) inner with
       | .error err => .error err
@@ -454,6 +495,17 @@ def insertSorted (x : Bytes) : List Bytes → List Bytes
 /-- upstream's `setEncoder`: element encodings in ascending octet-string order -/
 def sortEncodings (l : List Bytes) : List Bytes := l.foldr insertSorted []
 
+/-- the static Go type of the value stored in an `interface{}` by `parseField` -/
+def dynType : AVal → Option ATy
+  | .str _ _ => some .str
+  | .int _ => some .int64
+  | .bits _ => some .bitString
+  | .oid _ => some .oid
+  | .time _ => some .time
+  | .octets _ => some .octets
+  | .bool _ => some .bool
+  | _ => none
+
 def marshalShell (t : ATy) (p : FP) (v : AVal) (body : AVal → Except Err Bytes) : Except Err Bytes :=
   if omitted t p v then .ok []
   else
@@ -514,6 +566,13 @@ def marshalField (d : Dialect) : ATy → FP → AVal → Except Err Bytes
         | .error err => .error err
         | .ok encs => .ok (concatAll (if d.sortSetOf && (p.set || s) then sortEncodings encs else encs))
       | _ => .error .other
+  | .any, p, v =>
+    match v.unwrap with
+    | .any (some inner) =>
+      match dynType inner with
+      | some t' => marshalShell t' p inner (marshalLeafBody t' p)
+      | none => .error .other
+    | _ => .error .other
   | t, p, v => marshalShell t p v fun v => marshalLeafBody t p v
 def marshalFields (d : Dialect) : AFields → List AVal → Except Err Bytes
   | .nil, [] => .ok []
